@@ -34,7 +34,7 @@ pub fn dijkstra(
     let py_distances = PyList::new(
         py,
         result.distances.iter().map(|&d| {
-            if d.is_infinite() {
+            if d == f64::INFINITY {
                 f64::INFINITY
             } else {
                 d
